@@ -326,6 +326,7 @@ func (w *h1World) runClient(ci int, script *h1Conn, s *sut.SUT, mitmCA *x509.Cer
 		}
 		pool := x509.NewCertPool()
 		pool.AddCert(mitmCA)
+		env.CountResponse("CONNECT", 200)
 		tc := tls.Client(conn, &tls.Config{RootCAs: pool, ServerName: "origin.example", NextProtos: []string{"http/1.1"}})
 		if err := tc.Handshake(); err != nil {
 			env.Fail("harness-mitm-handshake", "", "client %d: TLS handshake with the proxy failed: %v", ci, err)
@@ -370,6 +371,11 @@ func (w *h1World) runClient(ci int, script *h1Conn, s *sut.SUT, mitmCA *x509.Cer
 		w.cli = append(w.cli, rec)
 		w.mu.Unlock()
 		close(gotResp[i])
+		if err == nil {
+			env.CountResponse(ex.Req.Method, m.Status)
+		} else {
+			env.AcctInexact = true
+		}
 		if err != nil {
 			failed = true
 			for j := i + 1; j < n; j++ {
